@@ -23,14 +23,16 @@ check("C20",
       "TLC model-checks the evolve/reset/advance control skeleton with environment operators that keep, mutate in place "
       "(container or member) or replace every state slot (nrep<=3, ngen<=2): StartNeverModified, ReplicateStartsEqual, "
       "TimeIndex, LogbookRep, termination; the shallow-copy and aliasing variants of reset must produce TLC "
-      "counterexamples (non-vacuity). TLC-simulated behaviours are replayed through the real evolve() with scripted "
+      "counterexamples (non-vacuity). Apalache discharges an inductive invariant of the same actions (BreedingLoop_Apa.tla, "
+      "INSTANCE of BreedingLoop) for arbitrary numbers of replicates and generations, from which the five invariants follow. "
+      "TLC-simulated behaviours are replayed through the real evolve() with scripted "
       "instrumented operators and random operator behaviours are added (up to 6 replicates x 8 generations); each "
       "recorded call trace (identity of containers/members received and returned, content fingerprints, t_cur, "
       "lbook.rep, mcfg, miscout token, start fingerprints after every call) is validated by TLC against the spec "
       "actions (BreedingLoop_Trace) with Reset/Tick as silent inferred steps.",
       "Operators and logbook are instrumented subclasses (no in-repo hook); content equality is fingerprint equality "
       "of dict containers of small mutable members.",
-      "TLA+ spec (BreedingLoop.tla) model-checked by TLC + TLC trace validation of recorded call traces; spec->code replay of TLC-simulated behaviours",
+      "TLA+ spec (BreedingLoop.tla) model-checked by TLC, inductive invariant for unbounded counters by Apalache + TLC trace validation of recorded call traces; spec->code replay of TLC-simulated behaviours",
       "DESIGN.md C20")
 
 check("C17",
